@@ -64,6 +64,7 @@ type c33obs struct {
 	prefCalls int
 	batchErr  error
 	cancelAt  int
+	ctxs      map[int]context.Context // the context each job was started with
 	mu        *sync.Mutex // only in the free-running -race pass (under vsched one thread runs at a time)
 }
 
@@ -85,7 +86,7 @@ func c33build(c c33cfg) (vsched.Scenario, *c33obs) { return c33buildMode(c, fals
 
 func c33buildMode(c c33cfg, native bool) (vsched.Scenario, *c33obs) {
 	o := &c33obs{accepted: map[int]bool{}, newJobErr: map[int]error{}, starts: map[int][]int{}, ends: map[int][]int{},
-		raised: map[int]int{}, prefs: map[int]int{}}
+		raised: map[int]int{}, prefs: map[int]int{}, ctxs: map[int]context.Context{}}
 	if native {
 		o.mu = &sync.Mutex{}
 	}
@@ -128,8 +129,9 @@ func c33buildMode(c c33cfg, native bool) (vsched.Scenario, *c33obs) {
 					}
 					return nil
 				},
-				func(_ context.Context, i, last uint64) error {
+				func(jctx context.Context, i, last uint64) error {
 					o.lock()
+					o.ctxs[int(i)] = jctx
 					if _, ok := o.prefs[int(last)]; !ok {
 						o.errcb = append(o.errcb, fmt.Sprintf("job %d ran before pref(%d)", i, last))
 					}
@@ -157,7 +159,12 @@ func c33buildMode(c c33cfg, native bool) (vsched.Scenario, *c33obs) {
 	roots = append(roots, func() {
 		for i := 0; i < c.jobs; i++ {
 			i := i
-			e := wk.NewJob(func(context.Context, uint64) error { return body(i) })
+			e := wk.NewJob(func(jctx context.Context, _ uint64) error {
+				o.lock()
+				o.ctxs[i] = jctx
+				o.unlock()
+				return body(i)
+			})
 			o.lock()
 			if e == nil {
 				o.accepted[i] = true
@@ -285,6 +292,9 @@ func c33scenario(c c33cfg, o *c33obs, roots []func()) vsched.Scenario {
 			case len(raisedMsgs) == 1 && c.cancel == "" && !strings.HasPrefix(msg, raisedMsgs[0]):
 				return fail("wrong-error", "Wait returned "+msg+", the only job error was "+raisedMsgs[0])
 			}
+			if f := c33checkCancelled(o, isJobErr && c.cancel == "", fail); f != nil {
+				return f
+			}
 			if c.sem == 1 && len(o.raised) > 1 {
 				return fail("second-failing-job-ran-after-first-error", "with one worker slot a second failing job ran after the first error had cancelled the worker")
 			}
@@ -328,6 +338,21 @@ func c33checkBatch(c c33cfg, o *c33obs, fail func(kind, detail string) *vsched.F
 	}
 	if !expectErr {
 		return fail("spurious-error", "BatchWork returned "+o.batchErr.Error()+" although nothing failed")
+	}
+	return c33checkCancelled(o, strings.Contains(o.batchErr.Error(), "job-"), fail)
+}
+
+// c33checkCancelled: the first job error cancels the remaining work - when the worker reports a job's error, the
+// context every job was started with is cancelled (a job that is still running, or that waits on ctx.Done(), is told
+// to stop). Judged at quiescence on the contexts the jobs really received.
+func c33checkCancelled(o *c33obs, jobErrorReported bool, fail func(kind, detail string) *vsched.Fail) *vsched.Fail {
+	if !jobErrorReported {
+		return nil
+	}
+	for i, jctx := range o.ctxs {
+		if jctx.Err() == nil {
+			return fail("job-context-not-cancelled-by-first-error", fmt.Sprintf("a job error was reported but the context job %d was started with is still alive: running jobs are not told to stop", i))
+		}
 	}
 	return nil
 }
